@@ -1,22 +1,22 @@
 ------------------------------ MODULE HeapTrace ------------------------------
-(* Trace validation for C18.  One record = one REAL copy:                      *)
+(* Trace validation for C18.  One record = one REAL original with two copies:  *)
 (*   shape, plan   what was instantiated and which mutation plan was executed  *)
-(*   cells, o, k   the heap graph extracted by reflection from the original    *)
-(*                 value (root o) and from what the real DeepCopy method       *)
-(*                 returned (root k); cells are identified by address, so a    *)
-(*                 cell both roots reach is a cell the two values share        *)
-(*   muts          every write the plan performed on the copy (Heap.tla        *)
-(*                 mutation records, in order)                                 *)
-(*   changed       OBSERVED: a deep snapshot of the original taken before the  *)
-(*                 copy differs from one taken after the mutations             *)
+(*   cells, o,k,k2 the heap graph extracted by reflection from the original    *)
+(*                 value (root o) and from what two calls of the real DeepCopy *)
+(*                 method on it returned (roots k, k2); cells are identified   *)
+(*                 by address, so a cell two roots reach is a shared cell      *)
+(*   steps         per plan step: the value it was performed through (a), the  *)
+(*                 mutation kind and every write performed (Heap.tla records)  *)
+(*   leaks         OBSERVED: "a>v" = after a step through a, a deep snapshot   *)
+(*                 of v (taken by an independent walk) had changed             *)
 (* The operators of Heap.tla judge the record:                                 *)
-(*   Iso       IsoV(cells, o, k)                         sentence 1            *)
-(*   Disjoint  MutableReach(o) \cap MutableReach(k) = {} sentence 2, 1st half  *)
-(*   Snapshot  ~changed                                  sentence 2, 2nd half  *)
+(*   Iso       IsoV(cells, o, k) /\ IsoV(cells, o, k2)       sentence 1        *)
+(*   Disjoint  pairwise disjoint MutableReach               sentence 2, 1st   *)
+(*   Snapshot  no leak observed                             sentence 2, 2nd   *)
 (* and the model is confronted with the observation (never a verdict on cog):  *)
-(*   Drift     replaying muts on the extracted heap predicts a change of       *)
-(*             Snapshot(o) iff one was observed; and Iso /\ Disjoint => no     *)
-(*             change observed (the design-level theorem of HeapMC)            *)
+(*   Drift     replaying the recorded writes step by step on the extracted    *)
+(*             heap predicts exactly the observed leaks; and                   *)
+(*             Iso /\ Disjoint => no leak observed (theorem Safe of HeapMC)    *)
 (* Report mode prints one FAIL line per violating record; Strict stops.        *)
 EXTENDS Heap, Json
 
@@ -30,19 +30,31 @@ TSpec == TInit /\ [][TNext]_l
 
 Step == Trace[l - 1]
 
-IsoR(r)      == IsoV(r.cells, r.o, r.k)
-DisjointR(r) == Disjoint(r.cells, r.o, r.k)
-Predicted(r) == Snapshot(ApplyMuts(r.cells, r.muts), r.o) # Snapshot(r.cells, r.o)
-DriftR(r)    == \/ Predicted(r) # r.changed
-                \/ (IsoR(r) /\ DisjointR(r) /\ r.changed)
+Val(r, w) == IF w = "o" THEN r.o ELSE IF w = "k" THEN r.k ELSE r.k2
+Names == {"o", "k", "k2"}
+
+IsoR(r)      == IsoV(r.cells, r.o, r.k) /\ IsoV(r.cells, r.o, r.k2)
+DisjointR(r) == /\ Disjoint(r.cells, r.o, r.k) /\ Disjoint(r.cells, r.o, r.k2) /\ Disjoint(r.cells, r.k, r.k2)
+
+RECURSIVE LeaksFrom(_, _, _)
+LeaksFrom(h, steps, r) ==
+  IF steps = <<>> THEN {}
+  ELSE LET st == Head(steps)
+           h2 == ApplyMuts(h, st.muts)
+       IN {st.a \o ">" \o w : w \in {x \in Names \ {st.a} : Snapshot(h2, Val(r, x)) # Snapshot(h, Val(r, x))}}
+          \cup LeaksFrom(h2, Tail(steps), r)
+Observed(r)  == {r.leaks[i] : i \in 1..Len(r.leaks)}
+DriftR(r)    == \/ LeaksFrom(r.cells, r.steps, r) # Observed(r)
+                \/ (IsoR(r) /\ DisjointR(r) /\ Observed(r) # {})
 
 Violated(r) == (IF IsoR(r) THEN {} ELSE {"Iso"})
           \cup (IF DisjointR(r) THEN {} ELSE {"Disjoint"})
-          \cup (IF r.changed THEN {"Snapshot"} ELSE {})
+          \cup (IF Observed(r) # {} THEN {"Snapshot"} ELSE {})
           \cup (IF DriftR(r) THEN {"Drift"} ELSE {})
 
 Verdict == l = 1 \/ Violated(Step) = {} \/
            (~Strict /\ PrintT(<<"FAIL", ToJson([l |-> l - 1, violated |-> Violated(Step),
-                                                nshared |-> Cardinality(SharedCells(Step.cells, Step.o, Step.k))])>>))
+                                                nshared |-> Cardinality(SharedCells(Step.cells, Step.o, Step.k)),
+                                                predicted |-> LeaksFrom(Step.cells, Step.steps, Step)])>>))
 Done == l = Len(Trace) + 1 => PrintT(<<"CONSUMED", l - 1>>)
 ===============================================================================
